@@ -177,7 +177,7 @@ func connInputs(r *rng.R, thorough bool) [][]byte {
 		for _, vc := range []byte{0x20, 0x21, 0x22, 0x2f, 0x11, 0x31} {
 			for _, fam := range []byte{0x00, 0x11, 0x12, 0x21, 0x22, 0x31, 0x10, 0x13, 0x41, 0xff} {
 				for _, body := range [][]byte{nil, body4, append(append([]byte{}, body4...), tlv...), genBody(9, 36), genBody(9, 40), body4[:5]} {
-					if !thorough && r.Chance(1, 2) && vc != 0x21 {
+					if !thorough && (r.Chance(2, 3) || (p == "x" && vc != 0x21)) {
 						continue
 					}
 					ins = append(ins, append(v2header(vc, fam, len(body), body), p...))
